@@ -364,6 +364,10 @@ def gen_scenario(rng, idx, strata=None):
     if method is None:
         method = int(rng.integers(0, 6))
     scen["irr"] = random_irr(rng, method, start, end) if method != 0 or rng.random() < 0.5 else None
+    if scen["irr"] is not None and "irr_over" in st:
+        scen["irr"].update(st["irr_over"])
+    if "soil_kw" in st:
+        scen["soil"].setdefault("kwargs", {}).update(st["soil_kw"])
     scen["fm"] = random_fm(rng, st.get("fm"))
     if scen["fm"] is not None and "fm_over" in st:
         scen["fm"].update(st["fm_over"])
@@ -372,6 +376,8 @@ def gen_scenario(rng, idx, strata=None):
     if gw is None:
         gw = rng.random() < 0.25
     scen["gw"] = random_gw(rng, start, end) if gw else None
+    if scen["gw"] is not None and "gw_values" in st:
+        scen["gw"]["values"] = [float(st["gw_values"][i % len(st["gw_values"])]) for i in range(len(scen["gw"]["values"]))]
     if scen["gw"] is not None and st.get("gw_shallow"):
         scen["gw"]["values"] = [float(rng.choice([0.04, 0.12, 0.25])) for _ in scen["gw"]["values"]]
     c = rng.random()
@@ -418,12 +424,34 @@ QUICK_STRATA = [
     dict(crop="Cotton", station="tunis_climate.txt", irr_method=4, soil_kind="custom", layers=CUSTOM_LAYERS[4], n_seasons=2,
          start_mode="at", off_season=False, iwc={"wc_type": "Pct", "method": "Layer", "depth_layer": [1, 2], "value": [30.0, 30.0]}),
     # season closed by the configured latest harvest date; deficit irrigation on a heavy soil
-    dict(crop="Cotton", station="tunis_climate.txt", irr_method=1, soil="Clay", soil_kind="builtin", harvest_early=True,
-         n_seasons=2, start_mode="before", off_season=False),
+    dict(crop="Cotton", station="tunis_climate.txt", irr_method=1, irr_over={"SMT": [20.0] * 4, "MaxIrr": 25.0, "AppEff": 100.0},
+         soil="Clay", soil_kind="builtin", n_seasons=2, start_mode="before", off_season=False),
+    dict(crop="Wheat", station="tunis_climate.txt", irr_method=0, soil="Loam", soil_kind="builtin", harvest_early=True,
+         n_seasons=3, start_mode="at", off_season=False),
     # the season is closed by the latest harvest date while the fallow days that follow are simulated and water is
     # applied every day (whatever is applied or grows after the harvest is visible in the daily tables)
     dict(crop="Maize", station="champion_climate.txt", irr_method=5, soil="SandyLoam", soil_kind="builtin", harvest_early=True,
          n_seasons=2, start_mode="before", off_season=True),
+    # a crop that dies of drought before maturity in a season that is not the last
+    dict(crop="Maize", station="tunis_climate.txt", irr_method=0, synth=True, regime="drought", n_seasons=3, start_mode="at",
+         off_season=False, soil="Sand", soil_kind="builtin", iwc={"wc_type": "Prop", "method": "Layer", "depth_layer": [1], "value": ["WP"]}),
+    # a layered soil (upper layer with the smaller drainable pore space, restricting root penetration) over a water
+    # table within reach of the upper layer; deep-rooted crop
+    dict(crop="Sorghum", station="hyderabad_climate.txt", irr_method=0, soil_kind="custom",
+         layers=[[0.6, 0.30, 0.45, 0.50, 60, 50.0], [1.4, 0.06, 0.13, 0.36, 3000, 100]], gw=True, gw_values=[1.0, 1.4],
+         n_seasons=1, start_mode="at"),
+    # a fixed-depth evaporation layer re-wetted from below (shallow table) under net irrigation
+    dict(crop="Wheat", station="tunis_climate.txt", irr_method=4, soil="SandyLoam", soil_kind="builtin", dz=None,
+         soil_kw={"evap_z_min": 0.15, "evap_z_max": 0.15}, gw=True, gw_values=[1.0], n_seasons=1, start_mode="at",
+         iwc={"wc_type": "Pct", "method": "Layer", "depth_layer": [1], "value": [20.0]}),
+    # a ponded, mulched paddy field through a cold season (cold-stress on transpiration; the pond dries between rains)
+    dict(crop="PaddyRice", station="tunis_climate.txt", irr_method=2, irr_over={"IrrInterval": 5}, fm="mix",
+         fm_over={"bunds": True, "z_bund": 0.2, "bund_water": 60.0, "mulches": True, "mulch_pct": 50.0, "f_mulch": 0.5},
+         soil="Paddy", soil_kind="builtin", dz=[0.1] * 12, planting="09/01", n_seasons=1, start_mode="at"),
+    # a very deep water table under a fine-textured profile that starts below field capacity
+    dict(crop="Wheat", station="tunis_climate.txt", irr_method=0, soil="SiltClayLoam", soil_kind="builtin", gw=True,
+         gw_values=[12.0, 30.0], n_seasons=1, start_mode="at",
+         iwc={"wc_type": "Pct", "method": "Layer", "depth_layer": [1], "value": [70.0]}),
     # dry seed bed (delayed germination) under stage-dependent thresholds
     dict(crop="Maize", station="champion_climate.txt", irr_method=1, soil="SiltLoam", soil_kind="builtin", n_seasons=1,
          start_mode="at", iwc={"wc_type": "Pct", "method": "Layer", "depth_layer": [1], "value": [10.0]}),
